@@ -45,7 +45,7 @@ RULE = ("every script of the stated families (application writes x terminal "
 
 K = 2                       # maximal accept latency (frames)
 LENGTHS = (1, 21, 22, 23, 45)
-RXLENGTHS = (1, 22)
+RXLENGTHS = (0, 1, 22)     # an empty chunk is announced and acknowledged too
 CHUNK = 22
 QUIET = 3                   # cycles executed after everything is complete
 
